@@ -21,11 +21,11 @@ META = dict(
           'class over <= 2 (thorough 3) worlds x all valuations for witness-introducing modal rules; the branch\'s own '
           'canonical frame x all valuations for necessity-type rules. Oracle: node satisfied <=> all added nodes of some '
           'resulting branch satisfied (for some witness). Frame rules: all 512 access relations over 3 worlds (x which worlds '
-          'carry a sentence, for D) built to completion, final pairs == required closure. '
+          'carry a sentence: all / none / world 0 only; all 8 subsets for D) built to completion, final pairs == required closure. '
           'A case = (logic, shape, context, interpretation); non-trivial = distinct (logic, shape, context) and frame cases.'),
     assumptions=['REF-SEM semantics (vlib/ref/sem.py), incl. lattice reading of the FDE family',
                  'components are atoms A, B, their negations (truth-functional shapes) / monadic Fx: exactness for arbitrary components follows by compositionality of REF-SEM'],
-    min_events={'any': {'shapes_with_expansion': 5000, 'interpretations_checked': 20000, 'frame_cases': 2000, 'logics': 52}},
+    min_events={'any': {'shapes_with_expansion': 5000, 'interpretations_checked': 20000, 'frame_cases': 6000, 'logics': 52}},
     budget=dict(quick=1500, thorough=7200),
     unit_timeout=dict(quick=900, thorough=3000),
 )
@@ -390,7 +390,8 @@ def run_frames(name, out, tier, seed):
         if not full and (idx + seed) % 4:
             continue
         pairs = [p for p, bit in zip(allpairs, bits) if bit]
-        carriers_list = [ws]
+        # which worlds carry a sentence: all of them (as in a real proof), none (access nodes only), only world 0
+        carriers_list = [ws, (), (0,)]
         if S.frame == 'serial':
             carriers_list = [tuple(w for w, bit in zip(ws, cb) if bit) for cb in product((0, 1), repeat=3)]
         for carriers in carriers_list:
